@@ -896,10 +896,9 @@ class PythonPrimitiveToStoneDecoder:
             return None
         else:
             if validate:
-                if self.caller_permissions.permissions:
-                    data_type.validate_with_permissions(val, self.caller_permissions)
-                else:
-                    data_type.validate(val)
+                # Only struct validators take caller permissions into account;
+                # this branch handles primitives.
+                data_type.validate(val)
             ret = val
         if self.alias_validators is not None and data_type in self.alias_validators:
             self.alias_validators[data_type](ret)
